@@ -29,6 +29,7 @@ TRUSTED = ["CPython executes the concrete part of the real source; proxies SInt/
            "loop-contract meta-argument (base, step from an arbitrary invariant state, exit from an arbitrary invariant state) and CPython's PyFrame_LocalsToFast used to put the real function's locals into the invariant state"]
 ASSUMPTIONS = ["losses are real numbers (no NaN, no IEEE rounding): comparisons are over the reals",
                "min_delta >= 0, patience >= 0 (pre-condition)", "print / log_status are inert",
+               "float(x) of numpy / jax scalars is exact; jnp.asarray of a 64-bit python / numpy scalar is modelled as rounding to float32 by an uninterpreted function (so a conversion through a float32 array cannot be proved value-preserving)",
                "train(): get_batches / train_step / map_loss_in_batches / random.split are ghost stubs returning opaque tokens indexed by (epoch, step); the loop invariant names the locals model, opt_state, aux_data, epoch, epoch_loss, epoch_val_loss, val_loss, rand_key, epoch_time; every other name assigned in the loops is poisoned after the havoc (a read-before-write makes the obligation undecided, never proved); save_model=None, is_wandb=False"]
 EXPLANATION = ("Deductive: every path of the real TrainLoss.stop / ValLoss.stop / EpochStop.stop is executed symbolically "
                "(patience, epochs, counters symbolic Int; losses, min_delta symbolic Real; +inf initial best) and each "
@@ -133,6 +134,8 @@ def ob_step(cls, rep, verbose):
     structure = {"class": cls, "loss_representation": rep, "verbose": verbose}
     obs = []
     results = {}
+
+    lib.NARROW_F64[0] = True        # the representation of the loss matters here: 64-bit scalars are rounded by jnp.asarray
 
     def run():
         o = getattr(sc, cls)(P, Dl, verbose)
